@@ -56,6 +56,27 @@ def model_line(c, K, cvs):
         p = ["ABMD", hx(M["k"]), hx(M["stop"]), "1" if M["dec"] else "0", str(c["it0"]), str(T), str(K)]
         p += [hx(cvs[t][0]) for t in range(T)]
         return " ".join(p)
+    if fam == "abf":
+        nd = M["nd"]
+        p = ["ABF", str(nd)] + [hx(x) for x in M["lower"]] + [hx(x) for x in M["width"]] + [str(n) for n in M["nx"]]
+        p += ["1" if x else "0" for x in M["periodic"]] + [str(M["full"]), str(M["min"]), "1" if M["update"] else "0",
+              "1" if M["cap"] else "0"] + [hx(x) for x in M["maxf"]] + ["1" if M["same"] else "0"]
+        p += ["1" if x else "0" for x in M["sub"]] + ["1" if x else "0" for x in M["other"]]
+        p += [str(c["it0"]), str(T), str(K)]
+        for t in range(T):
+            o = [0.0] * nd
+            if M["hk"] is not None:
+                dd = cvs[t][0] - M["hc"]
+                if M["periodic"][0]:
+                    import math
+                    dd = dd - math.floor(dd / M["P"][0] + 0.5) * M["P"][0]
+                o[0] = -0.5 * M["hk"] / (M["width"][0] * M["width"][0]) * (2.0 * dd)
+            p += [hx(x) for x in cvs[t]] + [hx(x) for x in c["ef"][t]] + [hx(x) for x in o]
+        qs = all_indices(M["nx"])
+        p += [str(len(qs))]
+        for q in qs:
+            p += [str(i) for i in q]
+        return " ".join(p)
     if fam == "extlag":
         X = M["x"]
         p = ["EXTLAG", hx(X["dt"]), hx(X["mass"]), hx(X["k"]), "1" if X["langevin"] else "0", hx(X["gf"]), hx(X["sigma"]),
@@ -102,6 +123,10 @@ def parse_model(line):
             out["S"] = parse_fields(rest)
         else:
             tail = None
+            mx = re.search(r"(?:^|\s)CNT=(\S*) GRAD=(\S*)$", rest)
+            if mx:
+                out[tag + "X"] = {"CNT": mx.group(1), "GRAD": mx.group(2)}
+                rest = rest[:mx.start()]
             m = re.search(r"(?:^|\s)G=(\S*)$", rest)
             if m:
                 tail = m.group(1)
@@ -210,6 +235,33 @@ def compare_case(c, K, fmt, mo, A, B, files):
                     bad.append(("%s:%s:atom-force" % (fam, tag), (blk["it"], blk["atomf"]["1"][2]), float.fromhex(m["FA"])))
                     return
 
+    if fam == "abf":
+        nd = c["model"]["nd"]
+        for tag, impl_steps, off in (("A", A, K + 1), ("B", B, 0)):
+            ms = mo[tag]
+            if len(ms) != len(impl_steps) - off:
+                bad.append(("abf:%s:steps" % tag, len(impl_steps) - off, len(ms)))
+                continue
+            for j, m in enumerate(ms):
+                blk = impl_steps[off + j]
+                fi = [blk["atomf"][str(i + 1)][2] for i in range(nd)]
+                if int(m["it"]) != blk["it"] or not cmp_list(fi, flist(m["F"])):
+                    bad.append(("abf:%s:force" % tag, (blk["it"], fi), (m["it"], flist(m["F"]))))
+                    break
+        for tag, fpath in (("S", files["a"]), ("A", files["fA"]), ("B", files["fB"])):
+            if tag == "S" and fmt != "text":
+                continue
+            blk = state_block(fpath, "abf", "a")
+            g = (mo["S"] if tag == "S" else mo[tag + "X"])
+            mc = [int(x) for x in g["CNT"].split(",")]
+            mg = flist(g["GRAD"])
+            ic = [float(x) for x in blk.get("samples", [])] if blk else None
+            ig = [float(x) for x in blk.get("gradient", [])] if blk else None
+            if ic is None or len(ic) != len(mc) or any(a != b for a, b in zip(ic, mc)):
+                bad.append(("abf:%s:samples" % tag, ic, mc))
+            elif ig is None or not cmp_list(ig, mg):
+                bad.append(("abf:%s:gradient" % tag, ig, mg))
+        return bad
     if fam != "histogram":
         steps("A", A, K + 1)
         steps("B", B, 0)
